@@ -1038,9 +1038,15 @@ func (au *ApplyUpdate) UnmarshalJSON(b []byte) error {
 		numLeaves:    js.NumLeaves,
 	}
 	for i, els := range js.UpdatedLeaves {
+		if i < 0 || i >= len(au.eau.updated) {
+			return fmt.Errorf("invalid tree height %v in updated leaves", i)
+		}
 		au.eau.updated[i] = els
 	}
 	for i, els := range js.TreeGrowth {
+		if i < 0 || i >= len(au.eau.treeGrowth) {
+			return fmt.Errorf("invalid tree height %v in tree growth", i)
+		}
 		au.eau.treeGrowth[i] = els
 	}
 	return nil
@@ -1083,6 +1089,9 @@ func (ru *RevertUpdate) UnmarshalJSON(b []byte) error {
 		numLeaves: js.NumLeaves,
 	}
 	for i, els := range js.UpdatedLeaves {
+		if i < 0 || i >= len(ru.eru.updated) {
+			return fmt.Errorf("invalid tree height %v in updated leaves", i)
+		}
 		ru.eru.updated[i] = els
 	}
 	return nil
